@@ -36,6 +36,8 @@ func init() {
 		Assumptions: []string{"sort.Slice orders the slice consistently with a strict weak order"},
 		Run:         runC12,
 		Mutants: []Mutant{
+			{Name: "build-name-skipped-by-suffix-test", File: "lintcmd/cmd.go", Rule: "R12.6", KeyPart: "same-descriptor-records-build-name",
+				Old: "\t\t\t\t\tbuilds[len(filtered)-1][diag.BuildName] = struct{}{}\n\t\t\t\t} else {", New: "\t\t\t\t\tif !strings.HasSuffix(filtered[len(filtered)-1].BuildName, diag.BuildName) {\n\t\t\t\t\t\tbuilds[len(filtered)-1][diag.BuildName] = struct{}{}\n\t\t\t\t\t}\n\t\t\t\t} else {"},
 			{Name: "buildname-before-category", File: "lintcmd/cmd.go", Rule: "R12.1", KeyPart: "comparator",
 				Old: "\t\t\tif di.Category != dj.Category {\n\t\t\t\treturn di.Category < dj.Category\n\t\t\t}\n\t\t\tif di.BuildName != dj.BuildName {\n\t\t\t\treturn di.BuildName < dj.BuildName\n\t\t\t}\n",
 				New: "\t\t\tif di.BuildName != dj.BuildName {\n\t\t\t\treturn di.BuildName < dj.BuildName\n\t\t\t}\n\t\t\tif di.Category != dj.Category {\n\t\t\t\treturn di.Category < dj.Category\n\t\t\t}\n"},
@@ -465,6 +467,85 @@ func runC12(c *Ctx) {
 		c.Check(FuncKey(lintFn)+"::MergeIf-from-check-documentation", lintFn.Pos(), fromDoc, "a problem's merge strategy is its check's documented MergeIf")
 		c.Check(FuncKey(lintFn)+"::U1000-is-MergeIfAll", lintFn.Pos(), u1000All, "U1000 problems, which the linter synthesises itself, are merged with the 'all' strategy")
 	})
+	// R12.6: the union of build names. When a problem has the same descriptor
+	// as the one kept before it, its build name must be recorded on every path;
+	// it may be skipped only under an exact equality test of the name (==, map
+	// membership) or when the two problems are equal in all fields. A test that
+	// relates the strings in any other way (prefix/suffix/contains) drops names.
+	c.Rule("R12.6", func() {
+		c.Floor("R12.6", 2)
+		pd := c.Func("lintcmd", "(*Command).printDiagnostics")
+		isDesc := func(v ssa.Value) bool {
+			return Derives(v, IsCallResult(Module+"/lintcmd.diagnostic.descriptor"))
+		}
+		same := EqEdges(pd, func(x, y ssa.Value) bool { return isDesc(x) && isDesc(y) })
+		if len(same) == 0 {
+			c.Undecided("printDiagnostics no longer compares the descriptors of neighbouring problems")
+		}
+		isBuildName := IsFieldOf("lintcmd.diagnostic", "BuildName")
+		fromBuildName := func(v ssa.Value) bool { return Derives(v, isBuildName) }
+		record := func(in ssa.Instruction) bool {
+			switch x := in.(type) {
+			case *ssa.MapUpdate:
+				return fromBuildName(x.Key)
+			case *ssa.Store:
+				return isBuildName(x.Addr) && fromBuildName(x.Val)
+			case *ssa.Call:
+				if IsCallTo(x, "builtin.append") && len(x.Call.Args) == 2 {
+					return fromBuildName(x.Call.Args[1])
+				}
+			}
+			return false
+		}
+		// exact tests of the name that may legitimately skip the record
+		exact := UnionEdges(
+			EqEdges(pd, func(x, y ssa.Value) bool { return fromBuildName(x) && fromBuildName(y) }),
+			CondEdges(pd, func(cond ssa.Value) (bool, bool) {
+				e, ok := cond.(*ssa.Extract)
+				if !ok || e.Index != 1 {
+					return false, false
+				}
+				lk, ok := e.Tuple.(*ssa.Lookup)
+				return ok && lk.CommaOk && fromBuildName(lk.Index), true
+			}),
+			CallTrueEdges(pd, func(call *ssa.Call) bool { return CalleeName(&call.Call) == Module+"/lintcmd.diagnostic.equal" }),
+		)
+		n := 0
+		for e := range same {
+			var blk *ssa.BasicBlock
+			for _, b := range pd.Blocks {
+				if b.Index == e.Block {
+					blk = b.Succs[e.Succ]
+				}
+			}
+			if blk == nil {
+				continue
+			}
+			first := blk.Instrs[0]
+			t, path := PathAvoiding(pd, first, func(in ssa.Instruction) bool {
+				if _, ok := in.(*ssa.Return); ok {
+					return true
+				}
+				b := in.Block()
+				return in == b.Instrs[0] && b != blk && strings.HasPrefix(b.Comment, "range") && strings.HasSuffix(b.Comment, ".loop") && b.Dominates(blk)
+			}, record, exact)
+			if record(first) {
+				t = nil
+			}
+			c.Check(FuncKey(pd)+"::same-descriptor-records-build-name#"+itoa(n), first.Pos(), t == nil, "a problem with the same descriptor as the kept one must add its build name on every path (only an exact equality test of the name, or equality of the whole problem, may skip it): otherwise the merged problem is annotated with fewer builds than it occurred under; path: %s", PathString(pd, path))
+			n++
+		}
+		// the names that are printed are the recorded ones: the final BuildName derives from a join/concatenation of recorded names
+		joined := false
+		Instrs(pd, false, func(in ssa.Instruction) {
+			if st, ok := in.(*ssa.Store); ok && isBuildName(st.Addr) {
+				if Derives(st.Val, IsCallResult("strings.Join")) || fromBuildName(st.Val) {
+					joined = true
+				}
+			}
+		})
+		c.Check(FuncKey(pd)+"::kept-problem-gets-the-recorded-names", pd.Pos(), joined, "the kept problem's BuildName is rebuilt from the recorded names")
+	})
 	_ = lp
 }
 
@@ -478,6 +559,7 @@ func sameClosureFn(a, b ssa.Value) bool {
 	ma, ok1 := a.(*ssa.MakeClosure)
 	mb, ok2 := b.(*ssa.MakeClosure)
 	return ok1 && ok2 && ma.Fn == mb.Fn
+
 }
 
 func elemTypeOf(c *Ctx) types.Type {
